@@ -257,3 +257,41 @@ def portable_rules(F, R):
                  "%s: generated Portable impl constrains every field type (%d predicates, %d distinct field types)" % (
                      nm, len(preds), len(set(f["ty"] for f in fields))), where=im["span"])
     R.floor("P4", "generated Portable impls", ng, 5)
+
+
+def impl_bound_rules(F, R):
+    """B2: the generated `unsafe impl Flat / FlatBase / FlatValidate / FlatUnsized` of every corpus definition carries a where-predicate
+    `<field type>: <that trait>` for every declared field type (manifest), i.e. a composite is flat only if each of its parts is.
+    `Flat` is a marker without methods, so nothing else in the build notices when its bounds are weakened."""
+    from e6_generated import strip_paths
+    man = F.manifest["types"]
+    want = {"flatty_base::traits::Flat": ("Flat", "Flat"), "flatty_base::traits::FlatValidate": ("FlatValidate", "FlatValidate"),
+            "flatty_base::traits::FlatBase": ("FlatBase", "FlatBase")}
+    n = 0
+    seen = {}
+    for im in F.impls:
+        if im["krate"] != "flatty_corpus" or im["trait"] not in want:
+            continue
+        nm = im["self"].split("::")[-1]
+        m = man.get(nm)
+        if not m or not m.get("def"):
+            continue
+        d = m["def"]
+        fields = d["fields"] if d["kind"] == "struct" else [f for v in d["variants"] for f in v["fields"]]
+        tr = want[im["trait"]][0]
+        have = set()
+        for p in im["predicates"]:
+            if ": " not in p:
+                continue
+            lhs, rhs = p.rsplit(": ", 1)
+            if rhs.split("::")[-1] in (tr, "FlatUnsized" if tr == "FlatBase" else tr):
+                have.add(strip_paths(lhs))
+        missing = sorted({strip_paths(f["fty"]) for f in fields} - have)
+        seen.setdefault(tr, 0)
+        seen[tr] += 1
+        n += 1
+        R.ob("B2.impl-bounds", nm, "impl " + tr, not missing,
+             "%s: generated impl %s requires `%s` of every field type%s" % (nm, tr, tr, "" if not missing else " -- missing for %s" % missing), where=im["span"])
+    R.floor("B2", "generated marker/validate/base impls with declared fields", n, 60)
+    for tr in ("Flat", "FlatValidate"):
+        R.floor("B2." + tr, "generated impl %s" % tr, seen.get(tr, 0), 30)
